@@ -65,7 +65,7 @@ fn derive_ss_line<T: MontConfig<N>, const N: usize>(ms: &str, gs: &str, b: &str,
 /// limb slices for `from_sign_and_limbs`
 fn fsl_inputs<T: MontConfig<N>, const N: usize>(rng: &mut Rng, thorough: bool) -> Vec<Vec<u64>> {
     let p = T::MODULUS.0;
-    let mut full: Vec<[u64; N]> = edge_values::<N>(rng, if thorough { 60 } else { 8 });
+    let mut full: Vec<[u64; N]> = edge_values::<N>(rng, if thorough { 700 } else { 8 });
     full.push(p);
     { let mut q = BigInt::<N>(p); q.sub_with_borrow(&BigInt::from(1u64)); full.push(q.0); }
     { let mut q = BigInt::<N>(p); if !q.add_with_carry(&BigInt::from(1u64)) { full.push(q.0); } }
@@ -101,7 +101,7 @@ fn fromstr_inputs<T: MontConfig<N>, const N: usize>(rng: &mut Rng, thorough: boo
     let w = &one << (64 * N);
     let mut vals: Vec<BigUint> = vec![BigUint::from(0u8), one.clone(), BigUint::from(2u8), BigUint::from(10u8), &p - &one, p.clone(), &p + &one,
         &p * 2u8, &p * 2u8 + &one, (&p - &one) / 2u8, &w - &one, w.clone(), &w + &one, &w * &p, &w * &p - &one, &w * &w, &w * &w * &w + &p - &one];
-    for i in 0..(if thorough { 24 } else { 5 }) {
+    for i in 0..(if thorough { 400 } else { 5 }) {
         let nl = 1 + (rng.below((2 * N + 2) as u64) as usize);
         let limbs: Vec<u32> = (0..2 * nl).map(|_| rng.next() as u32).collect();
         let mut x = BigUint::new(limbs);
@@ -153,7 +153,7 @@ fn bigfromstr_ops<const N: usize>(rng: &mut Rng, thorough: bool, out: &mut Out) 
     let mut vals: Vec<BigUint> = vec![BigUint::from(0u8), one.clone(), BigUint::from(255u8), BigUint::from(256u16), BigUint::from(u64::MAX), &w - &one, &w - 2u8, w.clone(), &w + &one,
         &w >> 1, &w >> 8, (&w >> 8) - &one, &w << 1, &w * &w];
     for k in 1..=N { vals.push(&one << (64 * k - 1)); vals.push((&one << (64 * k)) - &one); vals.push(&one << (64 * k)); vals.push(&one << (64 * k - 8)); vals.push((&one << (64 * k - 8)) - &one); }
-    for _ in 0..(if thorough { 40 } else { 8 }) {
+    for _ in 0..(if thorough { 1500 } else { 8 }) {
         let nl = 1 + (rng.below((2 * N + 1) as u64) as usize);
         vals.push(BigUint::new((0..nl).map(|_| rng.next() as u32).collect()));
     }
